@@ -1,4 +1,5 @@
 pub mod engine;
+pub mod g3;
 pub mod enumerate;
 pub mod props;
 pub mod refmodel;
